@@ -148,6 +148,12 @@ def get_all_rules(rules_path=None, match_mode='first_match'):
     """
     global _cached_engine, _cached_engine_path
 
+    # The cached engine must always describe the rules loaded last: forget the previous one,
+    # otherwise normalize_merchant() keeps answering from an earlier .rules file after a CSV
+    # (or a failing) load.
+    _cached_engine = None
+    _cached_engine_path = None
+
     user_rules_with_source = []
     if rules_path:
         # Check if it's the new .rules format
